@@ -42,6 +42,8 @@ fn mac_digit(acc: &mut [BigDigit], b: &[BigDigit], c: BigDigit) {
 
     let mut carry = 0;
     let (a_lo, a_hi) = acc.split_at_mut(b.len());
+    #[cfg(num_bigint_verif)]
+    crate::verif_probe::add_work(b.len());
 
     for (a, &b) in a_lo.iter_mut().zip(b) {
         *a = mac_with_carry(*a, b, c, &mut carry);
@@ -52,6 +54,8 @@ fn mac_digit(acc: &mut [BigDigit], b: &[BigDigit], c: BigDigit) {
     let final_carry = if carry_hi == 0 {
         __add2(a_hi, &[carry_lo])
     } else {
+        #[cfg(num_bigint_verif)]
+        crate::verif_probe::hit(19);
         __add2(a_hi, &[carry_hi, carry_lo])
     };
     assert_eq!(final_carry, 0, "carry overflow during multiplication!");
@@ -69,6 +73,8 @@ fn mac3(mut acc: &mut [BigDigit], mut b: &[BigDigit], mut c: &[BigDigit]) {
     if let Some(&0) = b.first() {
         if let Some(nz) = b.iter().position(|&d| d != 0) {
             b = &b[nz..];
+            #[cfg(num_bigint_verif)]
+            crate::verif_probe::hit(17);
             acc = &mut acc[nz..];
         } else {
             return;
@@ -77,6 +83,8 @@ fn mac3(mut acc: &mut [BigDigit], mut b: &[BigDigit], mut c: &[BigDigit]) {
     if let Some(&0) = c.first() {
         if let Some(nz) = c.iter().position(|&d| d != 0) {
             c = &c[nz..];
+            #[cfg(num_bigint_verif)]
+            crate::verif_probe::hit(18);
             acc = &mut acc[nz..];
         } else {
             return;
@@ -99,11 +107,15 @@ fn mac3(mut acc: &mut [BigDigit], mut b: &[BigDigit], mut c: &[BigDigit]) {
     // of `cargo bench --bench bigint multiply`.
 
     if x.len() <= 32 {
+        #[cfg(num_bigint_verif)]
+        crate::verif_probe::hit(10);
         // Long multiplication:
         for (i, xi) in x.iter().enumerate() {
             mac_digit(&mut acc[i..], y, *xi);
         }
     } else if x.len() * 2 <= y.len() {
+        #[cfg(num_bigint_verif)]
+        crate::verif_probe::hit(11);
         // Karatsuba Multiplication for factors with significant length disparity.
         //
         // The Half-Karatsuba Multiplication Algorithm is a specialized case of
@@ -163,6 +175,8 @@ fn mac3(mut acc: &mut [BigDigit], mut b: &[BigDigit], mut c: &[BigDigit]) {
         mac3(acc, x, low2);
         mac3(&mut acc[m2..], x, high2);
     } else if x.len() <= 256 {
+        #[cfg(num_bigint_verif)]
+        crate::verif_probe::hit(12);
         // Karatsuba multiplication:
         //
         // The idea is that we break x and y up into two smaller numbers that each have about half
@@ -262,6 +276,8 @@ fn mac3(mut acc: &mut [BigDigit], mut b: &[BigDigit], mut c: &[BigDigit]) {
 
         match j0_sign * j1_sign {
             Plus => {
+                #[cfg(num_bigint_verif)]
+                crate::verif_probe::hit(14);
                 p.data.truncate(0);
                 p.data.resize(len, 0);
 
@@ -272,6 +288,8 @@ fn mac3(mut acc: &mut [BigDigit], mut b: &[BigDigit], mut c: &[BigDigit]) {
             }
             Minus => {
                 mac3(&mut acc[b..], &j0.data, &j1.data);
+                #[cfg(num_bigint_verif)]
+                crate::verif_probe::hit(15);
             }
             NoSign => (),
         }
@@ -285,6 +303,8 @@ fn mac3(mut acc: &mut [BigDigit], mut b: &[BigDigit], mut c: &[BigDigit]) {
         // polynomials of a certain degree and determine the coefficients/digits
         // of the product of the two via interpolation of the polynomial product.
         let i = y.len() / 3 + 1;
+        #[cfg(num_bigint_verif)]
+        crate::verif_probe::hit(13);
 
         let x0_len = Ord::min(x.len(), i);
         let x1_len = Ord::min(x.len() - x0_len, i);
@@ -623,4 +643,30 @@ fn test_sub_sign() {
 
     assert_eq!(sub_sign_i(&a.data, &b.data), &a_i - &b_i);
     assert_eq!(sub_sign_i(&b.data, &a.data), &b_i - &a_i);
+}
+
+#[cfg(num_bigint_verif)]
+pub mod verif {
+    //! Verification-only wrappers around private functions.
+    use super::BigUint;
+    use crate::Sign;
+    use alloc::vec::Vec;
+    pub fn mac_digit(mut acc: Vec<u64>, b: &[u64], c: u64) -> Vec<u64> {
+        super::mac_digit(&mut acc, b, c);
+        acc
+    }
+    pub fn mac3(mut acc: Vec<u64>, b: &[u64], c: &[u64]) -> Vec<u64> {
+        super::mac3(&mut acc, b, c);
+        acc
+    }
+    pub fn mul3(x: &[u64], y: &[u64]) -> BigUint {
+        super::mul3(x, y)
+    }
+    pub fn sub_sign(a: &[u64], b: &[u64]) -> (Sign, BigUint) {
+        super::sub_sign(a, b)
+    }
+    pub fn scalar_mul(mut a: BigUint, b: u64) -> BigUint {
+        super::scalar_mul(&mut a, b);
+        a
+    }
 }
